@@ -1,0 +1,8 @@
+//go:build verif
+
+package block
+
+import "time"
+
+func timeUnixNano(ns int64) time.Time   { return time.Unix(0, ns) }
+func durationNs(ns int64) time.Duration { return time.Duration(ns) }
